@@ -3,6 +3,8 @@ package main
 
 import (
 	_ "verif/internal/c01"
+	_ "verif/internal/c02"
+	_ "verif/internal/c03"
 	_ "verif/internal/c05"
 	_ "verif/internal/c07"
 	_ "verif/internal/c08"
